@@ -587,7 +587,7 @@ func oracleC06(r *rng, n int, tier string) *oracleResult {
 		run(d)
 	})
 	for _, d := range docs {
-		if d.phase <= 2 {
+		if d.phase <= 2 || isRefSpelling(d) { // also every odd spelling of a reference: its text goes through the encoder too
 			run(d)
 		}
 	}
